@@ -105,6 +105,8 @@ PROP = {
         "Wm.Decor.settle_outer_settles_inner",
         "Wm.Decor.transform_sub_transparent",
         "Wm.Decor.sub_error_close_pass",
+        "Wm.Decor.close_drain_passes_every_message",
+        "Wm.Decor.released_first_loses_message_witness",
         "Wm.Decor.subscribe_refusal_passes_and_close_returns",
         "Wm.Decor.early_registration_blocks_close_witness",
         "Wm.Decor.close_sub_each_call_passes",
@@ -155,7 +157,8 @@ PROP = {
             "and just inside it (2200, 1800): delayed-for must be the distance SATURATED like Time.Sub, 1..4 Publish calls with "
             "inner failure scripts, Close (with error); 10% of the random cases re-publish the same message objects and 10% publish an empty "
             "batch (finding D15, reported as KNOWN-FINDING). sub: every subscriber stack of depth 0..3 over {transform a, transform b, "
-            "metrics} x 11 programs (ack/nack/late ack, Close error, no message, Subscribe refused, Subscribe refused once or twice and then accepted "
+            "metrics} x 13 programs (a wrapped subscriber with a graceful Close that hands out 2-3 already fetched messages WHILE its Close runs, one at a "
+            "time, each waiting to be settled, the consumer reading until the channel is closed – every one must reach the consumer; ack/nack/late ack, Close error, no message, Subscribe refused, Subscribe refused once or twice and then accepted "
             "on a retry with messages and acks flowing, a further Subscribe refused after the messages flowed – each followed by Close; every "
             "Subscribe / Close call runs under a watchdog: a call that does not return within 5 s is observed as `stuck` "
             "(rules subscribe_did_not_return, close_did_not_return), ack and nack AFTER the subscription context was "
@@ -197,6 +200,9 @@ PROP = {
         "(until = 0001-01-01T00:00:00Z, for = 0s) is stamped as it is and only its precedence is checked",
         "transform functions change metadata only; a transform that replaces the message context would also remove the "
         "'already observed' marks (user code, outside the property)",
+        "a message handed out during the wrapped subscriber's Close is demanded at the consumer when the wrapped Close waits for its "
+        "settlement before it returns (a graceful, draining Close); a wrapped Close that returns while a message it just handed out is "
+        "still inside the pump races with the release of the pump (the `closing` signal of the Close-does-not-hang repair): not generated",
         "the messages of one batch are distinct objects; the innermost subscriber hands out fresh message objects (as every "
         "watermill subscriber does)",
         "the publish mark and the subscribe mark are two different context keys (fact ctx_mark_keys_distinct, computed from the const "
